@@ -55,7 +55,7 @@ func fastPathObserver(obs string) bool {
 
 var specC01 = &worldSpec{
 	Prop: "C01",
-	Profile: &Profile{MinSteps: 20, MaxSteps: 70, W: weights(map[string]int{"replay": 8}),
+	Profile: &Profile{MinSteps: 20, MaxSteps: 70, W: weights(map[string]int{"replay": 8, "hold": 4}),
 		Backends: []string{"mem", "mem", "mem", "trace", "prefix", "prefix"}},
 	Obs:  Observers{Reads: true},
 	Rule: "history of 20-70 steps over {set,remove,setnil,save,rollback,reopen(cfg re-drawn, latest|older),replay(after a reopen at an older version: the recorded writes of the next existing version + its idempotent re-commit),prune,lvfo,dvf}; non-trivial = >=2 commits, a retained or past version with >=2 keys, and at least one of {removal, reopen, prune, rollback}; distinct = sha256 of the JSON history",
@@ -80,7 +80,7 @@ func trackMaxKeys(w *World, op Op) *Violation {
 var specC02 = &worldSpec{
 	Prop: "C02",
 	Profile: &Profile{MinSteps: 20, MaxSteps: 70,
-		W:        weights(map[string]int{"read": 22, "hop": 2, "setnil": 0, "remove": 16, "replay": 12}),
+		W:        weights(map[string]int{"read": 22, "hop": 2, "setnil": 0, "remove": 16, "replay": 12, "hold": 3}),
 		Backends: []string{"mem", "mem", "trace", "prefix"}},
 	Obs:  Observers{Hash: true, NoStepWorkingHash: true},
 	Rule: "history of 20-70 steps incl. read-only calls applied to the real tree only (Get, Has, GetWithIndex, GetByIndex, Iterate, partial Iterator, GetProof/Membership/NonMembership on the working tree, GetVersionedProof, Hash, WorkingHash, ImmutableTree.Hash, GetVersioned, GetImmutable, partial Export), reopen/prune/rollback/export-import hops, restart at an older version + replay of the existing versions (idempotent re-commits) + continuation, InitialVersion in {unset,1,2,7,2^33}; WorkingHash, SaveVersion hash+version, Hash and the hash of every retained version are compared with the reference IAVL+ implementation after every step; non-trivial = reference performed >=1 rotation and >=1 removal, >=3 commits, >=1 read step while the working tree was dirty",
@@ -113,7 +113,7 @@ var specC03 = &worldSpec{
 func TestC03(t *testing.T) { runWorldSpec(t, withLevel(specC03)) }
 
 // ---------------------------------------------------------------- C04 pruning safety
-var pruneWeights = map[string]int{"replay": 6, "set": 22, "remove": 12, "save": 30, "prune": 14, "prune_refuse": 3, "rollback": 3, "reopen": 6, "lvfo": 4, "dvf": 2, "setnil": 0, "pin": 3, "unpin": 3}
+var pruneWeights = map[string]int{"replay": 6, "hold": 3, "set": 22, "remove": 12, "save": 30, "prune": 14, "prune_refuse": 3, "rollback": 3, "reopen": 6, "lvfo": 4, "dvf": 2, "setnil": 0, "pin": 3, "unpin": 3}
 
 var specC04 = &worldSpec{
 	Prop: "C04",
@@ -132,7 +132,7 @@ func TestC04(t *testing.T) { runWorldSpec(t, withLevel(specC04)) }
 var specC07 = &worldSpec{
 	Prop: "C07",
 	Profile: &Profile{MinSteps: 15, MaxSteps: 60,
-		W:        weights(map[string]int{"reopen": 16, "setnil": 0, "hop": 1, "remove": 16, "lvfo": 5, "dvf": 3, "replay": 8}),
+		W:        weights(map[string]int{"reopen": 16, "setnil": 0, "hop": 1, "remove": 16, "lvfo": 5, "dvf": 3, "replay": 8, "hold": 5}),
 		Backends: []string{"mem", "mem", "trace", "prefix"}},
 	Obs:  Observers{Fast: true, Reads: true},
 	Rule: "history of 15-60 steps where every (re)open independently draws fast index on/off and the version to load, interleaved with writes, removals (incl. set+remove inside one version), commits, rollbacks, pruning and import hops; after every step Get == GetWithIndex == model for every probe key, MutableTree.Iterator/Iterate == ImmutableTree.IterateRange == model (both directions), GetVersioned == GetImmutable(v).GetWithIndex == model, and whenever the live handle has the index enabled the raw f-entries decoded independently equal the model's latest map exactly with label 1.1.0-<latest>. non-trivial = a (re)open that changed the fast setting or loaded a non-latest version, with a committed write before and after it",
